@@ -1,7 +1,7 @@
 (* C25 property theorems. Nothing but statements closed by `exact`, Print Assumptions and non-vacuity examples. *)
 From Coq Require Import List ZArith String Bool.
 From GoProbe.Base Require Import CorrLib.
-From GoProbe.C25 Require Import Model Proofs1 Proofs2 Proofs3 Proofs4 Proofs5 Proofs6.
+From GoProbe.C25 Require Import Model Proofs1 Proofs2 Proofs3 Proofs4 Proofs5 Proofs6 Proofs7 Proofs8 Proofs9.
 Import ListNotations.
 Open Scope Z_scope.
 
@@ -54,9 +54,53 @@ Theorem c25_leftovers_invisible : forall nm dst src o k, is_stage (n_stage nm) =
 Proof. exact leftovers_invisible'. Qed.
 Print Assumptions c25_leftovers_invisible.
 
-(* FULL STATEMENT, not proved (checked at every crash point of every run): from every crash prefix outside the
-   window a later merge completes and day_view (final_state nm2 (crash_state nm dst src o k) src o) i ts
-   = day_view (final_state nm dst src o) i ts. Inside the window it does not hold: the later merge rebuilds the
+(* "never both, never neither" for the completed merge: for every plan the merge executes (every non-skipped
+   day of every selected interface), the day directories of that day which the query walk and the merge listing
+   see in the final state are EXACTLY ONE: the directory named new_name holding new_blocks (the source day for a
+   copy, mergeSnapshots(source, destination day) for a rebuild). For all names, trees and options; the stage
+   name is fresh (MkdirTemp) and the source root has no duplicate entry names. *)
+Theorem c25_final_view : forall nm dst src o sel pl, names_ok2 nm -> stage_free nm dst -> NoDup (interfaces src) ->
+  o_dryrun o = false -> select_ifaces (src_ifaces src) (o_ifaces o) = Some sel ->
+  In pl (fst (plan_ifaces o dst src sel)) -> p_act pl <> ASkip ->
+  filter (fun d => ts_of d =? p_ts pl) (day_dirs (final_state nm dst src o) (p_iface pl))
+  = [([p_iface pl; fst (n_ym nm (p_ts pl)); snd (n_ym nm (p_ts pl)); new_name nm (o_overwrite o) pl],
+      new_name nm (o_overwrite o) pl, Data (new_blocks (o_overwrite o) pl))].
+Proof. exact final_planned. Qed.
+Print Assumptions c25_final_view.
+
+(* c25_later_merge, DAY LEVEL (partial): the step the merge performs on one day - isDayComplete of both sides,
+   planDayMerge, copy or mergeSnapshots - as a function day_after of the destination day (None = absent) is a
+   fixed point after one application, mergeSnapshots absorbs, and the plan record the model builds for a day
+   computes exactly day_after of the day directory it found. So whichever of its two possible states
+   (c25_old_or_new_partial) a day of a crashed tree is in - old d or merged day_after d - running the day's
+   step again yields the merged day day_after d, which by c25_final_view is what the directory then holds. *)
+Theorem c25_later_merge_day_partial :
+  (forall o ts sname sbl rn d,
+     day_after o ts sname sbl rn (day_after o ts sname sbl rn d) = day_after o ts sname sbl rn d)
+  /\ (forall ow sb db, merge_blocks ow sb (merge_blocks ow sb db) = merge_blocks ow sb db)
+  /\ (forall nm o i ts sname sbl (e : option (path * string * blocks)),
+        let ow := o_overwrite o in
+        let ex := match e with Some (p, _, dbl) => Some (p, dbl) | None => None end in
+        let dstC := match e with Some (_, _, dbl) => complete (tolerance o) ts dbl | None => false end in
+        let hasDst := match e with Some _ => true | None => false end in
+        let pl := mkPlan i ts (plan_action ow (complete (tolerance o) ts sbl) hasDst dstC) sname sbl ex in
+        match p_act pl with
+        | ASkip => match e with Some (_, n, dbl) => Some (n, dbl) | None => None end
+        | _ => Some (new_name nm ow pl, new_blocks ow pl)
+        end
+        = day_after o ts sname sbl (n_rname nm i ts)
+                    (match e with Some (_, n, dbl) => Some (n, dbl) | None => None end)).
+Proof. exact (conj day_after_fixed (conj merge_blocks_absorb plan_day_after)). Qed.
+Print Assumptions c25_later_merge_day_partial.
+
+(* FULL STATEMENT c25_later_merge, NOT proved as one theorem (checked at every crash point of every run): from
+   every crash prefix k outside the window a later merge completes and
+     day_view (final_state nm2 (crash_state nm dst src o k) src o) i ts = day_view (final_state nm dst src o) i ts.
+   Proved parts: c25_old_or_new_partial (each day of the crashed tree is old or merged), c25_final_view (a merge
+   from ANY tree with a fresh stage name leaves exactly the planned directory), c25_later_merge_day_partial (the
+   day step is a fixed point and the plan computes it), c25_leftovers_invisible (planning ignores leftovers).
+   Missing glue: that plan_days on the crashed tree finds, for every source day, the head of that day's view and
+   does not abort (list-level re-planning lemma). Inside the window it does not hold: the later merge rebuilds the
    day from the source alone and the destination-only block (1704845100, 1) stays hidden in the backup. *)
 Theorem c25_later_merge_window_refuted :
   exists nm nm2 dst src o i ts k,
@@ -87,3 +131,12 @@ Proof.
   split; [exact B|]. split; [vm_compute; repeat constructor; intros []|]. split; [vm_compute; reflexivity|]. split; [vm_compute; reflexivity|].
   split; vm_compute; reflexivity.
 Qed.
+
+(* non-vacuity of c25_final_view and of the day-level fixed point: the copy example's plan, and a rebuild *)
+Example c25_final_view_example :
+  filter (fun d => ts_of d =? 1704844800) (day_dirs (final_state ex_names ex_dst ex_src ex_opts) "eth0")
+  = [(["eth0"; "2024"; "01"; "1704844800_b"]%string, "1704844800_b"%string, Data [(1704845100, 3); (1704931200, 4)])]
+  /\ day_after ex2_opts 1704844800 "1704844800_b" [(1704845400, 3); (1704888000, 4)] (fun _ => "r"%string)
+       (Some ("1704844800_a"%string, [(1704845100, 1); (1704845400, 2)]))
+     = Some ("r"%string, [(1704845100, 1); (1704845400, 2); (1704888000, 4)]).
+Proof. split; vm_compute; reflexivity. Qed.
